@@ -551,6 +551,72 @@ func runC04Gaps3(c *eng.Ctx, rootNS string) {
 		}
 	}
 
+	// ---- C04.19 a token-addressed request (auth/token/{lookup,renew,revoke,revoke-orphan}) is switched into
+	// the namespace named by the DECODED token: the id whose ".nsid" suffix is split off is the result of
+	// the SSC decoding whenever the body token is an SSC token (the opaque form carries no suffix) — seed C04-d
+	if f := c.Fn("vault.(*Core).handleCancelableRequest"); f != nil {
+		decoded := `^call:vault\.\(\*Core\)\.(CheckSSCToken|DecodeSSCToken|checkSSCTokenInternal)#0$`
+		isTokenOrigin := func(o eng.Origin) bool {
+			if o.Kind == "call" && regexp.MustCompile(decoded).MatchString(o.Kind+":"+o.Desc) {
+				return true
+			}
+			// the raw body token: read out of the request's data map
+			for _, r := range eng.Roots(o.Val, nil) {
+				if ex, ok := r.(*ssa.Extract); ok {
+					if ta, ok := ex.Tuple.(*ssa.TypeAssert); ok {
+						for _, rr := range eng.Roots(ta.X, nil) {
+							if e2, ok := rr.(*ssa.Extract); ok {
+								if lk, ok := e2.Tuple.(*ssa.Lookup); ok {
+									if k, ok := lk.Index.(*ssa.Const); ok && eng.Expr(k) == `"token"` {
+										return true
+									}
+								}
+							}
+						}
+					}
+				}
+			}
+			return false
+		}
+		fe := eng.Feasible(f, map[string]bool{`^vault\.IsSSCToken\(\)$`: true})
+		n := 0
+		for _, sp := range eng.Calls(f, `^namespace\.SplitIDFromString$`) {
+			op := sp.Common().Args[0]
+			tokenSite := false
+			for _, o := range eng.Origins(op) {
+				if isTokenOrigin(o) {
+					tokenSite = true
+				}
+			}
+			if !tokenSite {
+				continue // lease-addressed paths
+			}
+			n++
+			c.Clause("R5", "C04.19")
+			site := "namespace of a token-addressed request derived from the decoded token"
+			if len(eng.CondEdges(f, `^vault\.IsSSCToken\(\)$`, true)) == 0 {
+				c.Undecided(f, site, sp.Pos(), "no branch tests IsSSCToken: the SSC case cannot be told from the plain case")
+				continue
+			}
+			bad := ""
+			roots := eng.Roots(op, fe)
+			for _, r := range roots {
+				if ok, b, _ := eng.OriginsMatch(r, decoded); !ok {
+					bad = b
+				}
+			}
+			switch {
+			case len(roots) == 0:
+				c.Undecided(f, site, sp.Pos(), "the operand of SplitIDFromString has no root under IsSSCToken == true")
+			case bad != "":
+				c.Violation(f, site, sp.Pos(), "for an SSC body token the namespace suffix is split off "+eng.Expr(op)+" (root "+bad+"), not off the decoded id: the opaque hvs.<base64> form carries no suffix, the request stays in the caller's namespace, revoke-orphan salts the id there, finds no entry and reports success with the token alive", nil)
+			default:
+				c.OK(f, site, sp.Pos(), "under IsSSCToken == true the operand is read out of the SSC decoding only: "+eng.Expr(op))
+			}
+		}
+		c.Floor(f, "token-addressed namespace switches", n, 1)
+	}
+
 	// ---- C04.17 token tidy removes a parent-index entry only after a successful lookup of the child
 	// in the namespace the key names (and of the parent)
 	nsOfKey := `^ctxNS\{ByID\(namespace\.SplitIDFromString\(\)#1\)\}$`
